@@ -1,6 +1,6 @@
 (** C06 - containers keep structure: order, arity, None-iff-null, set and map semantics. *)
-From Deserr Require Import Base Pointer Kinds Value Prog Utf8 Scalars Types Deser Monitors.
-From Deserr.proofs Require Import MiscProofs.
+From Deserr Require Import Base Pointer Kinds Value Prog Utf8 Scalars Types Deser Spec Monitors.
+From Deserr.proofs Require Import MiscProofs RefineBase RefineLoops RefineStruct SortedIns C06More.
 
 (** arrays and tuples require exactly their arity; otherwise the whole offending sequence is
     reported once with the expected length, from any state, under any script *)
@@ -45,6 +45,73 @@ Theorem c06_map_bad_key_fails : forall script a kp n t ms l s k v e,
   is_err (fst (run script (deser (TMap kp n t) a (VMap ms) l) s)).
 Proof. exact map_bad_key_fails. Qed.
 
+(** Sets and maps as values (keep-going error type; through the refinement theorem of C02):
+    a successful HashSet/BTreeSet is the de-duplication of its element values, a successful map is
+    the fold of [map_insert] over its members in payload order. *)
+Theorem c06_set_value : forall t a vs l s o s',
+  run (fun _ => true) (deser (THashSet t) a (VSeq vs) l) s = (ROk o, s') ->
+  exists os, all_some (map (fun iv => s_out (spec t (snd iv) (Index (fst iv) l))) (indexed vs 0)) = Some os
+             /\ o = OSet (dedup_outs os []).
+Proof.
+  intros t a vs l s o s' Hrun. destruct (deser_refines_spec (THashSet t) a (VSeq vs) l s) as (r & ext & Hr & _ & _ & Hm).
+  rewrite Hrun in Hr. inversion Hr; subst r. destruct Hm as [Ho Hf]. cbn [spec] in Ho, Hf.
+  unfold s_seq, s_collect in Ho, Hf. cbn [s_out s_faults] in Ho, Hf. rewrite Hf in Ho. rewrite map_map in Ho.
+  destruct (all_some (map (fun x => s_out (spec t (snd x) (Index (fst x) l))) (indexed vs 0))) as [os|]; [|discriminate].
+  exists os. split; [reflexivity|]. inversion Ho. reflexivity.
+Qed.
+
+Theorem c06_map_value : forall kp n t a ms l s o s',
+  run (fun _ => true) (deser (TMap kp n t) a (VMap ms) l) s = (ROk o, s') ->
+  exists m, map_fold (map (map_member_spec (spec t) kp n l) ms) [] = Some m /\ o = OMap m.
+Proof.
+  intros kp n t a ms l s o s' Hrun. destruct (deser_refines_spec (TMap kp n t) a (VMap ms) l s) as (r & ext & Hr & _ & _ & Hm).
+  rewrite Hrun in Hr. inversion Hr; subst r. destruct Hm as [Ho Hf]. cbn [spec] in Ho, Hf.
+  unfold s_map in Ho, Hf. cbn [s_out s_faults] in Ho, Hf. rewrite Hf in Ho.
+  change (map (fun kv : string * value =>
+                 match parse_key kp (fst kv) with
+                 | inl ko => (Some ko, spec t (snd kv) (Key (fst kv) l))
+                 | inr _ => (None, s_fault (FKind (Unexpected (key_msg (fst kv) n)) l))
+                 end) ms) with (map (map_member_spec (spec t) kp n l) ms) in Ho.
+  fold (map_fold (map (map_member_spec (spec t) kp n l) ms) []) in Ho.
+  destruct (map_fold (map (map_member_spec (spec t) kp n l) ms) []) as [m|]; [|discriminate].
+  exists m. split; [reflexivity|]. inversion Ho. reflexivity.
+Qed.
+
+(** what de-duplication keeps: only elements of the list, none equal to one kept before it, and
+    every element of the list is kept or equals a kept one *)
+Theorem c06_set_members : forall l y, In y (dedup_outs l []) -> In y l.
+Proof. intros l y. apply dedup_in. Qed.
+Theorem c06_set_distinct : forall l, later_distinct (dedup_outs l []).
+Proof. intros l. apply dedup_distinct. Qed.
+Theorem c06_set_covers : forall l x, In x l ->
+  In x (dedup_outs l []) \/ exists y, In y (dedup_outs l []) /\ out_eqb x y = true.
+Proof.
+  intros l x H. destruct (dedup_covers l [] x H) as [Hin|(y & [[]|Hy] & E)]; [left; exact Hin|right; exists y; split; assumption].
+Qed.
+
+(** [map_insert] is a finite-map update: the inserted key is bound to the new value (so the last
+    member with a given parsed key wins), every other key keeps its binding *)
+Theorem c06_map_insert_same : forall k v m, key_cmp k k = Eq -> ssorted out out key_cmp m -> map_lookup k (map_insert k v m) = Some v.
+Proof. exact map_lookup_insert_same. Qed.
+Theorem c06_map_insert_other : forall k v k' m,
+  key_cmp k' k <> Eq -> ssorted out out key_cmp m -> map_lookup k' (map_insert k v m) = map_lookup k' m.
+Proof. exact map_lookup_insert_other. Qed.
+
+Check c06_set_value : forall t a vs l s o s',
+  run (fun _ => true) (deser (THashSet t) a (VSeq vs) l) s = (ROk o, s') ->
+  exists os, all_some (map (fun iv => s_out (spec t (snd iv) (Index (fst iv) l))) (indexed vs 0)) = Some os
+             /\ o = OSet (dedup_outs os []).
+Check c06_map_value : forall kp n t a ms l s o s',
+  run (fun _ => true) (deser (TMap kp n t) a (VMap ms) l) s = (ROk o, s') ->
+  exists m, map_fold (map (map_member_spec (spec t) kp n l) ms) [] = Some m /\ o = OMap m.
+Check c06_set_members : forall l y, In y (dedup_outs l []) -> In y l.
+Check c06_set_distinct : forall l, later_distinct (dedup_outs l []).
+Check c06_set_covers : forall l x, In x l ->
+  In x (dedup_outs l []) \/ exists y, In y (dedup_outs l []) /\ out_eqb x y = true.
+Check c06_map_insert_same : forall k v m, key_cmp k k = Eq -> ssorted out out key_cmp m -> map_lookup k (map_insert k v m) = Some v.
+Check c06_map_insert_other : forall k v k' m,
+  key_cmp k' k <> Eq -> ssorted out out key_cmp m -> map_lookup k' (map_insert k v m) = map_lookup k' m.
+
 Check c06_array_arity : forall script a n t vs l s,
   N.of_nat (List.length vs) <> n ->
   run script (deser (TArray n t) a (VSeq vs) l) s
@@ -76,3 +143,10 @@ Print Assumptions c06_box.
 Print Assumptions c06_vec_elements.
 Print Assumptions c06_vec_length.
 Print Assumptions c06_map_bad_key_fails.
+Print Assumptions c06_set_value.
+Print Assumptions c06_map_value.
+Print Assumptions c06_set_members.
+Print Assumptions c06_set_distinct.
+Print Assumptions c06_set_covers.
+Print Assumptions c06_map_insert_same.
+Print Assumptions c06_map_insert_other.
